@@ -80,9 +80,11 @@ func isTrivial(tp reflect.Type) bool {
 		return false
 	}
 
-	// Check if the type itself is a pointer, slice, map, or channel
+	// Check if the type itself is a pointer, slice, map, channel, function value or unsafe pointer.
+	// All of these contain pointers the garbage collector must see.
 	switch tp.Kind() {
-	case reflect.Ptr, reflect.Slice, reflect.Map, reflect.Chan, reflect.Interface, reflect.String:
+	case reflect.Ptr, reflect.Slice, reflect.Map, reflect.Chan, reflect.Interface, reflect.String,
+		reflect.Func, reflect.UnsafePointer:
 		return false
 	}
 
